@@ -111,12 +111,12 @@ async def run_faulted(ctx, s, engine, req, faults, sdl, arg_faults=(), arg_kind=
 
 async def run_case(ctx, rng, index):
     so = smodel.GenOpts(p_nonnull=rng.choice([0.15, 0.3, 0.5, 0.7]), p_mutation=0.3, p_gate=rng.choice([0.0, 0.25, 0.3]),
-                        n_inputs=rng.choice([(0, 2), (1, 3)]), p_args=rng.choice([0.35, 0.6]))
+                        n_inputs=rng.choice([(0, 2), (1, 3)]), p_args=rng.choice([0.35, 0.6]), p_non_introspectable=0.15)
     s, b = await X.new_bundle(rng, so)
     try:
         for _ in range(DOCS_PER_SCHEMA):
             req = X.gen_request(rng, s, docgen.DocOpts(max_fields=rng.choice([6, 10, 14]), max_depth=3,
-                                                       op_kinds=("query", "mutation")))
+                                                       op_kinds=("query", "mutation"), introspection=0.25))
             if rng.random() < 0.12:
                 req.world_opts = {"p_long": 0.08}     # size boundaries: lists of 513 / 600 / 1030 leaves
             w0, _w = X.make_worlds(s, req)
